@@ -18,11 +18,13 @@ VARIABLES toks
 vars == <<toks>>
 
 Tokens == <<
-  "a", "b|c", "(", ")", "(?:", "(?i:", "(?-s:", "(?s)", "(?i)", "\\(", "\\)", "?i:", "?", "*", "+", "|", "[", "]", "[^", "a-",
+  "a", "b|c", "(", ")", "(?:", "(?i:", "(?-s:", "(?s)", "(?i)", "\\(", "\\)", "?i:", "\\(?i:", "\\(?s:b", "\\(?i)", "?", "*", "+", "|", "[", "]", "[^", "a-",
   "{", "}", "{{", "}}", "{{x}}", "{2,3}", "\\", "\\\\", "\"", "\\\"", "^", "$", ".", "\\x", "\\x5c", "\\s", " ", "\t",
   "NL", "CR", "CTRL1", "NUL", "UTF8", "BAD8",
   "##!", "##!>", "##!<", "##!=>", "##!=<", "##!+", "##!^", "##!$", " assemble", " cmdline", " unix", " define", " x", " include",
-  " include-except", " f", " --", " i", "@", "~", "'"
+  " include-except", " f", " --", " i", "@", "~", "'",
+  \* whole directive lines (each ends its line)
+  "DEFSELF", "DEFGROW", "DEFCYC1", "DEFCYC2", "DEFOK", "STOREX", "LOADX", "INCLF", "INCLSELF"
 >>
 
 Init == toks = <<>>
